@@ -41,7 +41,7 @@ def plan(tier, seed):
     for i in range(k):
         specs.append({'kind': 'soup', 'count': 40 if tier == 'quick' else 60, 'maxlen': 3000 if tier == 'quick' else 12000})
     for i in range(k):
-        specs.append({'kind': 'window', 'count': 10 if tier == 'quick' else 40})
+        specs.append({'kind': 'window', 'count': 10 if tier == 'quick' else 40, 'index': i})
     specs.append({'kind': 'tail'})
     for i in range(2 if tier == 'quick' else 8):
         specs.append({'kind': 'update60', 'count': 60 if tier == 'quick' else 250})
@@ -261,9 +261,11 @@ def run_shard(spec, ctx):
             if i == 0:
                 ctx.sample({'soup_prefix': t[:80]})
     elif kind == 'window':
+        grid = [(d, l) for d in range(3112, 3130) for l in (15, 16, 17, 18, 19)]
         for i in range(spec['count']):
-            dist = rng.randint(3110, 3140)
-            ln = rng.randint(15, 19)
+            # the shards walk a fixed (distance, length) grid around the window edge; random pairs beyond it
+            idx = spec.get('index', 0) * spec['count'] + i
+            dist, ln = grid[(idx * 7) % len(grid)] if idx < 2 * len(grid) else (rng.randint(3110, 3140), rng.randint(15, 19))
             block = bytes(rng.choice(b'abcdefghijklmnopqrstuvwxyz') for _ in range(ln))
             t = block + unique_filler(rng, dist - ln) + block + b'\n'
             ctx.feature('window_dist_%s' % ('le3120' if dist <= 3120 else 'gt3120'))
@@ -277,6 +279,16 @@ def run_shard(spec, ctx):
                 ctx.feature('tail_offset_%d' % k)
                 check_producer(ctx, t, 'tail', compress, p8png)
     elif kind == 'update60':
+        for t in (b'_update60=1\nx=2\n', b'function _update60() end\nx=1\n', b'x=1\n_update60()', b'x=1\nfoo(_update60)\n',
+                  b'x=1\nif(_update60) y=1\nz=2\n', b'if(_update60) y=1\n', b'zzz\nif(_update60) y=1\n', b'a=1\nb=_update60'):
+            ctx.feature('update60_cases')
+            if t.startswith(b'_update60') or t.startswith(b'function _update60'):
+                ctx.feature('update60_at_start')
+            if t.rstrip().endswith(b'_update60') or t.rstrip().endswith(b'_update60()'):
+                ctx.feature('update60_at_end')
+            if b'\nif(_update60)' in t or t.startswith(b'if(_update60)'):
+                ctx.feature('line_begins_if_update60')
+            check_producer(ctx, t, 'update60-fixed', compress, p8png)
         suffix_bits = [b'if(_update60)', b'if(_update60)_update=function()', b'_update60()', b'_update60()_update60()end',
                        b'_update_buttons()', b'\nif(_update60)', b'_update=function()', b'end']
         for i in range(spec['count']):
